@@ -683,3 +683,12 @@ func tensorOf(x reflect.Value) (tensor.Tensor, bool) {
 	}
 	return nil, false
 }
+
+// Concrete returns x; symbolically it forks over every feasible value of x so
+// that the harness can go on computing with a concrete number.
+func (v *T) Concrete(x int) int { return x }
+
+// StopAtBoundary: when a symbolic value with a huge domain reaches the point
+// where it must be concrete (a gorgonia call), end the path quietly instead of
+// reporting an engine limit ("phase A": full-range attributes).
+func (v *T) StopAtBoundary() {}
